@@ -1,6 +1,7 @@
 import PoolProofs.C19Lemmas
 import PoolProofs.C19LemmasRpc
 import PoolProofs.C19LemmasStr
+import PoolModel.Generated.C19State
 /-! # C19 — decoding untrusted tickets and auctioneer batch messages never crashes
 
 Headline theorems about the model of sidecar/tlv.go + sidecar/codec.go (`Pool.Dec.deserializeTicket`,
@@ -66,6 +67,21 @@ theorem C19_model_fields_match_pb : ∀ f ∈ modelFields, f ∈ Pool.Gen.C19.pb
 theorem C19_repo_checks_present :
     repoRpcCfg.nilChecks = true ∧ repoRpcCfg.rejectByRawID = true ∧ repoRpcCfg.signNilCheck = true := by
   refine ⟨?_, ?_, ?_⟩ <;> rfl
+
+/-- (regenerated fact) The model treats every parser / decoder as a function of its input alone.  That is
+what the source does: in the intra-package call graphs of `ParseRPCBatch` … `ParseRPCSign` (package order)
+and of `DecodeString`, `DeserializeTicket`, `EncodeToString`, `SerializeTicket` (package sidecar) no function
+assigns to, indexes into, deletes from or takes the address of a package-level variable – so the two handler
+goroutines of a daemon (rpcServer and SidecarAcceptor) can be inside the parsers at the same time without a
+data race (a concurrent map access is a fatal, unrecoverable runtime error).  The call graphs contain every
+function the model mirrors. -/
+theorem C19_parsers_touch_no_package_state :
+    Pool.Gen.C19.parserStateWrites = [] ∧
+    (∀ f ∈ ["ParseRPCBatch", "ParseRPCMatchedOrders", "ParseRPCServerAsk", "ParseRPCServerBid",
+             "ParseRPCServerOrder", "parseNodeAddrs", "ParseRPCSign"], f ∈ Pool.Gen.C19.orderParseCallGraph) ∧
+    (∀ f ∈ ["DecodeString", "DeserializeTicket", "deserializeOffer", "deserializeRecipient", "deserializeOrder",
+             "deserializeExecution", "decodeBytes", "DSig", "DBytes8"], f ∈ Pool.Gen.C19.sidecarCodecCallGraph) := by
+  decide
 
 /-- For EVERY decoded prepare message — any sub-message absent, any key / hex / address / tx malformed —
 `ParseRPCBatch` yields a batch or an error, never a panic. -/
